@@ -9,4 +9,5 @@ import (
 	_ "verif/checks/c05"
 	_ "verif/checks/c08"
 	_ "verif/checks/cachex"
+	_ "verif/checks/c17"
 )
